@@ -24,8 +24,8 @@ RULE = ('8 helpers (route/resource/static/current_route x url/path) on generated
         'values that are neither str, bytes nor int (None, non-integral floats, str-subclass instances, objects with __str__), '
         'one-shot iterators as query / sequence value / star value, empty _host; current_route_url is also compared with '
         'route_url(<current route>, **{**matchdict, **keywords}) on the implementation; every URL with extra elements is compared '
-        'with the same call without them (no segment nobody supplied) and the route part of the path, decoded as a whole, with the '
-        'pattern filled with the supplied values; registrations made after URLs were generated on the half-built configuration; '
+        'with the same call without them (no segment nobody supplied) and the route part of the path, decoded as a whole, with '
+        'spec_path_text computed in Coq (the pattern filled with the supplied values; C17_generate_decodes_text); registrations made after URLs were generated on the half-built configuration; '
         'texts made only of one Unicode class beyond ASCII (digits of other scripts, superscripts, spaces, case-mapping letters, marks); '
         'sadd stream: the registrations a sequence of add_static_view statements leaves behind vs the Coq model of StaticURLInfo.add; '
         'plus urllib.parse decoder, urljoin and quote streams. non-trivial = a URL was '
@@ -1265,7 +1265,33 @@ def _static_routes(case):
     return out
 
 
+def _path_spec_wire(case):
+    """[pattern, matchdict, keywords, [sub-path]] for Coq's spec_path_text (Model/C17_glue.v), or None"""
+    h = case['helper']
+    if h == 'route':
+        pat = dict((n, p) for n, p in case['routes']).get(case['route_name'])
+        return None if pat is None else [_w_pattern(pat), [], _w_kw(case['kw']), []]
+    if h == 'current':
+        pat = dict((n, p) for n, p in case['routes']).get(case['cur_route_name'] or case['matched'])
+        return None if pat is None else [_w_pattern(pat), _w_kw(case['matchdict']), _w_kw(case['kw']), []]
+    if h == 'static':
+        r, sub = _static_hit(case)
+        if r is None or r[3] is not None:
+            return None
+        return [_w_pattern(r[2]), [], _w_kw(case['kw']), [sub]]
+    return None
+
+
 def to_wire(case):
+    inner = _to_wire(case)
+    if case['kind'] == 'gen':
+        extra = _path_spec_wire(case)
+        if extra is not None:
+            return [6, inner, extra]
+    return inner
+
+
+def _to_wire(case):
     k = case['kind']
     if k == 'dec':
         return [1, case['url']]
@@ -1301,10 +1327,17 @@ def from_wire(case, raw):
         return {'model': ['MODEL-BAD'], 'spec': None}
     if case['kind'] != 'gen':
         return {'model': raw, 'spec': None}
+    path_text = []
+    if _path_spec_wire(case) is not None:
+        if len(raw) != 2:
+            return {'model': ['MODEL-BAD', raw], 'spec': None}
+        raw, path_text = raw          # [] | [text]: Coq's spec_path_text for this case
     if len(raw) != 4 or len(raw[3]) != 8:
         return {'model': ['MODEL-BAD', raw], 'spec': None}
-    # [] : the model mutates none of its inputs ; [] : current_route_url IS route_url on the merged keywords
-    return {'model': raw[:3] + [[], []], 'spec': raw[3]}
+    # [] : the model mutates none of its inputs ; [] : current_route_url IS route_url on the merged keywords ;
+    # the decoded route part (obs[5]) is an observation of the implementation only (equiv ignores it): it is judged
+    # against spec[8] = spec_path_text, proved of the model's generate in C17_generate_decodes_text
+    return {'model': raw[:3] + [[], [], []], 'spec': raw[3] + [path_text]}
 
 
 # ------------------------------------------------------------ implementation
@@ -1603,9 +1636,10 @@ def run_impl(case):
             ref = _call(lambda: req.route_url(name, *els, **merged()))
             if ref != u:
                 rel = ['current_route_url differs from route_url(<current route>, **{**matchdict, **keywords})', ref]
+    part = []
     if not rel and u[0] == 0:
-        rel = _path_relations(case, req, cfg, h, ov, els, u[1])
-    return [u, p, py_decode(u[1]) if u[0] == 0 else [], sorted(changed), rel]
+        rel, part = _path_relations(case, req, cfg, h, ov, els, u[1])
+    return [u, p, py_decode(u[1]) if u[0] == 0 else [], sorted(changed), rel, part]
 
 
 def _ptext(v):
@@ -1645,85 +1679,40 @@ def _route_part(case, U):
     return rest
 
 
-def _expected_path_text(case):
-    """the route's path, percent-decoded, reads: literal, value, literal, .., star value (python side of Coq's
-    c17_spec_path_text); None: not applicable"""
-    h = case['helper']
-    if h == 'route':
-        name, kw = case['route_name'], list(case['kw'])
-    elif h == 'current':
-        name = case['cur_route_name'] or case['matched']
-        kw = dict((k, v) for k, v in case['matchdict'])
-        kw.update(dict((k, v) for k, v in case['kw']))
-        kw = list(kw.items())
-    elif h == 'static':
-        r, sub = _static_hit(case)
-        if r is None or r[3] is not None:
-            return None
-        pp = parse_pattern(r[2])
-        kw = dict((k, v) for k, v in case['kw'])
-        kw['subpath'] = ['v', ['s', sub]]
-        kw, name = list(kw.items()), None
-    else:
-        return None
-    if h != 'static':
-        pat = dict((n, p_) for n, p_ in case['routes']).get(name)
-        if pat is None:
-            return None
-        pp = parse_pattern(pat)
-    kw = dict(kw)
-
-    def text(key, is_star):
-        v = kw[key]
-        if v[0] == 'v':
-            return _ptext(v[1])
-        if is_star:
-            return '/'.join(_ptext(x) for x in v[1])
-        return str(_py_seq(v[2], [_py_pval(x) for x in v[1]]))
-    try:
-        out = pp['prefix']
-        for nm, lit in pp['holes']:
-            out += text(nm, nm == pp['star']) + lit
-        if pp['star']:
-            out += text(pp['star'], True)
-        return out
-    except (KeyError, UnicodeDecodeError):
-        return None
-
-
 def _path_relations(case, req, cfg, h, ov, els, U):
     """two declarative relations the parsed-URL judge cannot see, observed on the implementation:
     (1) the path of the URL with extra elements is the path of the same URL without them, one trailing empty segment
         dropped, followed by exactly the supplied elements (an extra empty segment is an element nobody supplied);
-    (2) the route's part of the path, percent-decoded as a whole, reads literal, value, literal, .., star value for the
-        values the caller supplied (bytes are UTF-8 text, other objects str(v), a star sequence joined with '/')"""
+    (2) the route's part of the path, percent-decoded as a whole ([text], returned second), which the judge compares with
+        Coq's spec_path_text: literal, value, literal, .., star value for the values the caller supplied
+    -> (relation failures, [decoded route part] | [])"""
     if h == 'static' and (_static_hit(case)[0] or [0, 0, 0, 1])[3] is not None:
-        return []
+        return [], []
     base_url = U
     if els:
         ub, _pb = _observe(dict(case, elements=[]), req, cfg, h, ov, [])
         if ub[0] != 0:
-            return ['the same call without the extra elements fails', ub]
+            return ['the same call without the extra elements fails', ub], []
         base_url = ub[1]
     rp, rb = _route_part(case, U), _route_part(case, base_url)
     if rp is None or rb is None:
-        return []
+        return [], []
     if els:
         try:
             want = [_ptext(x) for x in case['elements']]
         except UnicodeDecodeError:
-            return []
+            return [], []
         base = rb.split('/')
         if base and base[-1] == '':
             base = base[:-1]
         got = [_unq(x) for x in rp.split('/')]
         exp = [_unq(x) for x in base] + want
         if got != exp:
-            return ['path segments with the extra elements are %r, without them %r + the elements %r' % (got, base, want)]
-    exp = _expected_path_text(case)
-    if exp is not None and _unq(rb) != exp:
-        return ['the route part of the path decodes to %r, the pattern filled with the supplied values reads %r' % (_unq(rb), exp)]
-    return []
+            return ['path segments with the extra elements are %r, without them %r + the elements %r' % (got, base, want)], []
+    if _path_spec_wire(case) is None:
+        return [], []
+    d = _unq(rb)
+    return [], [d if d is not None else '<not UTF-8>']
 
 
 def _observe(case, req, cfg, h, ov, els):
@@ -1861,13 +1850,17 @@ def judge_gen(case, obs, spec):
     """-> (ok, reason, tag)"""
     from urllib.parse import urlsplit
     u, p = obs[0], obs[1]
-    if spec is None or len(spec) != 8:
+    if spec is None or len(spec) not in (8, 9):
         return None, 'no spec', None
-    auth, els, query, anchor, script, ext, must, xauth = spec
+    auth, els, query, anchor, script, ext, must, xauth = spec[:8]
+    path_text = spec[8] if len(spec) == 9 else []
     if len(obs) > 3 and obs[3]:
         return False, 'the call changed its inputs: %s' % obs[3], 'url'
     if len(obs) > 4 and obs[4]:
         return False, '%s' % (obs[4],), 'url'
+    if len(obs) > 5 and obs[5] and path_text and obs[5] != path_text:
+        return False, 'the route part of the path decodes to %r, the pattern filled with the supplied values reads %r ' \
+            '(spec_path_text)' % (obs[5][0], path_text[0]), 'url'
     if u[0] != 0:
         if must == 1:
             return False, 'no URL produced (%s) although the route exists, every placeholder has a value and every ' \
@@ -1945,15 +1938,18 @@ def judge_gen(case, obs, spec):
 
 
 def equiv(case, obs, model):
-    """urlsplit also validates the text between '[' and ']' as an IP literal (ipaddress module); that check
+    """obs[5] (the decoded route part) is observed on the implementation only; otherwise:
+    urlsplit also validates the text between '[' and ']' as an IP literal (ipaddress module); that check
     is not modelled: a ValueError there is accepted when the model sees a bracketed host"""
     try:
         if case['kind'] == 'join':
             return obs == [1, 4] and '[' in case['base'] + case['ref'] and ']' in case['base'] + case['ref']
         if case['kind'] == 'dec':
             return obs == [[1, 4], []] and model[0][0] == 0 and '[' in model[0][2] and ']' in model[0][2]
+        if case['kind'] == 'gen' and obs[:5] == model[:5]:
+            return True
         if case['kind'] == 'gen':
-            return obs[:2] == model[:2] and obs[2] == [1] and model[2][0] == 0 and '[' in model[2][2] and ']' in model[2][2]
+            return obs[:2] == model[:2] and obs[3:5] == model[3:5] and obs[2] == [1] and model[2][0] == 0 and '[' in model[2][2] and ']' in model[2][2]
     except Exception:
         return False
     return False
